@@ -153,7 +153,7 @@ def _mk(cid, r, blk, **f):
          "l1": f.get("l1") or _pick(r, ["default", 0.0, 1e-3], [0.8, 0.1, 0.1]),
          "verb": int(r.integers(0, 3)), "fret": _pick(r, ["np", "py"]),
          "cont": f.get("cont") or (_pick(r, ["list", "tuple", "single"]) if len(sizes) == 1 else _pick(r, ["list", "tuple"])),
-         "sc": f.get("sc") or (1.0 if bounds == "default" else _pick(r, [1.0, 0.3, 3.0], [0.7, 0.15, 0.15])),
+         "sc": f.get("sc") or (1.0 if bounds == "default" else _pick(r, [1.0, 0.3, 3.0, 1e-3, 1e-6, 1e3], [0.6, 0.1, 0.1, 0.08, 0.06, 0.06])),
          "eqb": bool(f.get("eqb", False)), "allpos": bool(f.get("allpos", False))}
     # the variable signals may be slices of one larger base signal (SignalSlice writes through to its base)
     via = f.get("via") or _pick(r, ["direct", "slices", "strided"], [0.88, 0.08, 0.04])
@@ -732,6 +732,36 @@ def run_case(case, ctx):
         ctx.count("steps_volume_box_unreachable", nbox)
         ctx.count("steps_volume_family_unreachable", nfam)
         ctx.count("steps_positive_gradient", npos)
+
+        # ---------------------------------------------------------------- a run that ends before maxit met a documented criterion
+        # (tolf: relative objective change |f_k - f_(k-1)|/|f_k|;  tolx: relative step ||x_k - x_new||/||x_k||)
+        maxit_used = int(kw.get("maxit", 100))
+        if not extra and 2 <= nresp < maxit_used and all(np.all(np.isfinite(d_)) for d_ in D) and not seen:
+            f1, g1 = _ref_fg(P, D[-1])
+            f0, _g0 = _ref_fg(P, D[-2])
+            tolf_used, tolx_used = float(kw.get("tolf", 1e-4)), float(kw.get("tolx", 1e-4))
+            relf = abs(f1 - f0) / abs(f1) if f1 != 0 else float("inf")
+            if relf < tolf_used * (1 + 1e-6):
+                ctx.count("stops_explained_by_tolf")
+            else:
+                # could the step-size criterion have been met?  lower bound of the next step from the reference OC family
+                p_ = D[-1]
+                gc_ = np.minimum(g1, 0.0)
+                lower_, upper_ = np.maximum(lo, p_ - move), np.minimum(hi, p_ + move)
+                delta_ = 1e-12 * (1.0 + float(np.sum(np.abs(upper_))))
+                br_ = None
+                if float(np.sum(lower_)) - delta_ <= Vt <= float(np.sum(upper_)) + delta_:
+                    br_ = _Family(p_ * np.sqrt(-gc_), lower_, upper_).bracket(Vt, delta_, tol, l1, l2)
+                if br_ is None:
+                    ctx.count("stops_not_judged")
+                else:
+                    dist = float(np.linalg.norm(np.maximum(np.maximum(br_[0] - p_, p_ - br_[1]), 0.0)))
+                    if dist > tolx_used * float(np.linalg.norm(p_)) * (1 + 1e-6) + 1e-300:
+                        violate("stop/run-ended-before-maxit-without-tolf-or-tolx-being-met", responses=nresp, maxit=maxit_used,
+                                rel_objective_change=relf, tolf=tolf_used, smallest_possible_rel_step=dist / float(np.linalg.norm(p_)),
+                                tolx=tolx_used, f_last=f1, f_previous=f0)
+                    else:
+                        ctx.count("stops_explained_by_tolx")
 
         # ---------------------------------------------------------------- convergence on sum c_i/x_i
         conv = "n/a"
